@@ -132,12 +132,13 @@ func (c *ccm) tag(nonce, plaintext, adata []byte) ([]byte, error) {
 		if n <= 0xfeff {
 			binary.BigEndian.PutUint16(block[:i], uint16(n))
 		} else {
-			block[0] = 0xfe
-			block[1] = 0xff
+			block[0] = 0xff
+			block[1] = 0xfe
 			if n < uint64(1<<32) {
 				i = 2 + 4
 				binary.BigEndian.PutUint32(block[2:i], uint32(n))
 			} else {
+				block[1] = 0xff
 				i = 2 + 8
 				binary.BigEndian.PutUint64(block[2:i], uint64(n))
 			}
